@@ -114,8 +114,9 @@ def always_exits(stmts: List[ast.stmt]) -> bool:
 
 
 class FactFlow:
-    def __init__(self, func_node: ast.AST, param_types: Optional[Dict[str, tuple]] = None, ival=None, nn_call=None, ret_nonneg=None, init_facts=None):
+    def __init__(self, func_node: ast.AST, param_types: Optional[Dict[str, tuple]] = None, ival=None, nn_call=None, ret_nonneg=None, init_facts=None, pred_inline=None):
         self.node = func_node
+        self.pred_inline = pred_inline
         self.facts_at: Dict[int, FrozenSet[Fact]] = {}
         self.types = param_types or {}
         self.ival = ival
@@ -187,6 +188,11 @@ class FactFlow:
             if truth and len(c.args) == 2 and "None" not in norm(c.args[1]):
                 out.add(("NN", norm(c.args[0])))
             return out
+        if isinstance(c, ast.Call) and self.pred_inline is not None:
+            # a one-expression predicate helper: what its result tells about its arguments
+            body = self.pred_inline(c)
+            if body is not None:
+                out |= self.assume(body, truth)
         if truth:
             t = norm(c)
             out.add(("T", t))
